@@ -14,6 +14,10 @@ import (
 func (self *BindStm) format(printer *printer, prefix string, idWidth int) {
 	printer.printComments(self.getNode(), prefix+INDENT)
 	printer.printComments(self.Exp.getNode(), prefix+INDENT)
+	if split, ok := self.Exp.(*SplitExp); ok && split.Value != nil {
+		// The split keyword and its operand are separate nodes.
+		printer.printComments(split.Value.getNode(), prefix+INDENT)
+	}
 
 	printer.mustWriteString(prefix)
 	printer.mustWriteString(INDENT)
@@ -304,7 +308,17 @@ func (self *PipelineRetains) format(printer *printer) {
 	printer.printComments(&self.Node, INDENT)
 	printer.mustWriteString(INDENT)
 	printer.mustWriteString("retain (\n")
-	for _, ref := range self.Refs {
+	for i, ref := range self.Refs {
+		if i == 0 {
+			// The first reference inherits the comments of the retain
+			// statement, which were printed above.  Only print its own.
+			own := *ref.getNode()
+			own.scopeComments = own.scopeComments[len(self.Node.scopeComments):]
+			own.Comments = own.Comments[len(self.Node.Comments):]
+			printer.printComments(&own, INDENT+INDENT)
+		} else {
+			printer.printComments(ref.getNode(), INDENT+INDENT)
+		}
 		printer.mustWriteString(INDENT)
 		printer.mustWriteString(INDENT)
 		ref.format(printer, INDENT+INDENT)
